@@ -1,6 +1,7 @@
 import GodiProofs.Container.Close
 import GodiProofs.Container.Instances
 import GodiProofs.Container.Drain
+import GodiProofs.Container.BuildLedger
 /-!
 # C10 — Every disposable instance is closed exactly once, never early, never leaked (sequential)
 
@@ -132,6 +133,42 @@ theorem close_touches_only_its_own (beh : Beh) (order : List Nat → List Nat) (
     ∀ j, Tracked (closeScope beh order f st s).1 j → closedCount (closeScope beh order f st s).1.log j = 0 :=
   ⟨((ledger_close beh order f).1 st s L).ledger, ((ledger_close beh order f).1 st s L).ledger.pending⟩
 
+/-- BUILD ESTABLISHES THE LEDGER; A FAILED BUILD LEAVES NOTHING BEHIND: for every registry with the
+collection's structural guarantees (instance values registered as singletons, one registration per
+value), every constructor behaviour and every creation order, the state `Build` returns satisfies the
+ledger; on success it is an open, tidy provider; on failure no disposal list holds anything any more —
+everything the partial Build created and owned has been closed exactly once -/
+theorem build_then_ledger (beh : Beh) (descs : List Desc) (order : List Nat) (wf : WF descs) (rw' : RegWF descs)
+    (is : InstSingleton descs) (idist : InstDistinct descs) :
+    Ledger (buildRuntime beh descs order).1 ∧
+    (∀ j, closedCount (buildRuntime beh descs order).1.log j ≤ 1) ∧
+    (∀ e, (buildRuntime beh descs order).2 = .error e → ∀ j, ¬ Tracked (buildRuntime beh descs order).1 j) :=
+  ⟨(build_ledger beh descs order wf rw' is idist).1, (build_ledger beh descs order wf rw' is idist).1.once,
+   (build_ledger beh descs order wf rw' is idist).2.2⟩
+
+/-- THE WHOLE LIFE CYCLE: Build (any creation order), then any history of resolutions, scope
+creations and closes (any faults), then `Provider.Close` (any visiting order): no instance has more
+than one `closed` event, every instance owed at the end of the history has exactly one, and no
+disposal list holds anything -/
+theorem whole_lifecycle (beh : Beh) (descs : List Desc) (order : List Nat) (ops : List Op)
+    (corder : List Nat → List Nat) (hord : ∀ l x, x ∈ l → x ∈ corder l)
+    (wf : WF descs) (rw' : RegWF descs) (is : InstSingleton descs) (idist : InstDistinct descs)
+    (hok : (buildRuntime beh descs order).2 = .ok ())
+    (hv : ValidHistL beh (buildRuntime beh descs order).1 ops) :
+    (∀ j, closedCount (closeProvider beh corder (run beh (buildRuntime beh descs order).1 ops)).1.log j ≤ 1) ∧
+    (∀ j, Owed (run beh (buildRuntime beh descs order).1 ops) j →
+      closedCount (closeProvider beh corder (run beh (buildRuntime beh descs order).1 ops)).1.log j = 1) ∧
+    (∀ j, ¬ Tracked (closeProvider beh corder (run beh (buildRuntime beh descs order).1 ops)).1 j) := by
+  obtain ⟨L, hsucc, _⟩ := build_ledger beh descs order wf rw' is idist
+  obtain ⟨T, hopen, hdescs, hinit, _⟩ := hsucc hok
+  have wf' : WF (buildRuntime beh descs order).1.descs := by rw [hdescs]; exact wf
+  have is' : InstSingleton (buildRuntime beh descs order).1.descs := by rw [hdescs]; exact is
+  obtain ⟨h1, h2⟩ := never_leaked beh _ ops corder hord wf' is' hinit L T hopen hv
+  refine ⟨h2, fun j hj => h1 j (Or.inr hj), ?_⟩
+  have hr := ledger_run beh ops _ wf' is' hinit L hv
+  obtain ⟨T1, d1⟩ := tidy_run beh ops _ wf' hinit T
+  exact closeProvider_all_closed beh corder hord _ hr.ledger T1 (d1.trans hopen)
+
 def ex : List Desc :=
   [{ id := 0, ident := ⟨3, 0, 0⟩, life := .singleton, ctor := 1, kind := .plain, deps := [], disp := true },
    { id := 1, ident := ⟨4, 0, 0⟩, life := .scoped, ctor := 2, kind := .plain, deps := [{ ty := 3 }], disp := true },
@@ -150,5 +187,11 @@ example : let st := (scopeGet {} (providerCreateScope {} (buildRuntime {} ex [0]
     (closedCount (closeProvider {} id st).1.log 1, closedCount (closeProvider {} id st).1.log 2,
      closedCount (closeProvider {} id st).1.log 3, closedCount (closeProvider {} id st).1.log 4) = (1, 1, 1, 0) := by
   decide
+
+/-- the structural hypotheses of `build_then_ledger` / `whole_lifecycle` are satisfiable -/
+example : WF ex ∧ RegWF ex ∧ InstSingleton ex ∧ InstDistinct ex ∧
+    (match (buildRuntime {} ex [0]).2 with | .ok _ => true | .error _ => false) = true := by
+  refine ⟨⟨?_, ?_⟩, ⟨?_, ?_, ?_, ?_, ?_, ?_⟩, ?_, ?_, by decide⟩ <;>
+    simp [SibLife, ex, findDesc, InstSingleton, InstDistinct] <;> decide
 
 end Godi.Props.C10
